@@ -80,7 +80,8 @@ enum S {
     If(Vec<(E, Vec<S>)>, Vec<S>),
     Case(E, Vec<Vec<S>>),
     Loop(It, Vec<S>),
-    Call(Sp, E, Vec<(char, E)>),
+    /// callee, association elements: (mode of the formal, formal part of a named association, actual)
+    Call(Sp, E, Vec<(char, Option<E>, E)>),
     Assert(E, Option<E>, Option<E>),
     Report(E, Option<E>),
     Next(Option<E>),
@@ -295,8 +296,9 @@ fn ser_s(s: &S, o: &mut String) {
             write!(o, "pc {} {} ", sp.0, sp.1).unwrap();
             ser_e(p, o);
             write!(o, "{} ", args.len()).unwrap();
-            for (m, a) in args {
+            for (m, f, a) in args {
                 write!(o, "{} ", m).unwrap();
+                ser_oe(f.as_ref(), o);
                 ser_e(a, o);
             }
         }
@@ -453,13 +455,14 @@ fn cs(s: &S) -> String {
             ce(p),
             clist(
                 args.iter()
-                    .map(|(m, a)| format!(
-                        "({}, {})",
+                    .map(|(m, f, a)| format!(
+                        "(mkAssoc {} {} {})",
                         match m {
                             'i' => "MIn",
                             'o' => "MOut",
                             _ => "MInOut",
                         },
+                        coe(f.as_ref()),
                         ce(a)
                     ))
                     .collect()
